@@ -72,6 +72,7 @@ def member_init_rule(prog, res, classes=None):
             # (members without an initialiser are value-initialised) is defined; an object declared without initialiser is not
             tag = '%s:%d:' % (c['file'], c['line'])
             uses, bare = 0, None
+            piecewise = []
             for h in prog.repo_funcs():
                 for dn in h.all_nodes({'DeclStmt'}):
                     for d_ in dn['decls']:
@@ -81,12 +82,29 @@ def member_init_rule(prog, res, classes=None):
                         uses += 1
                         iv = h.nodes[h.strip(d_['init'], 'noop')] if 'init' in d_ else None
                         if iv is None or (iv['k'] == 'CXXConstructExpr' and not iv.get('args') and not iv.get('list_init')):
+                            # declared bare and then filled member by member (`T x; x.a = ..; x.b = ..;`)?
+                            Rh_ = Renderer(h)
+                            assigned_ = set()
+                            for an_ in h.all_nodes({'BinaryOperator'}):
+                                if an_['op'] == '=':
+                                    ml_ = re.match(r'^local:%s\.(\w+)$' % re.escape(d_['name']), Rh_.render(an_['ch'][0]))
+                                    if ml_:
+                                        assigned_.add(ml_.group(1))
+                            if {s_['name'] for s_ in scal} <= assigned_:
+                                straight = not any(True for _ in h.all_nodes({'IfStmt', 'ForStmt', 'WhileStmt', 'DoStmt', 'SwitchStmt', 'CXXForRangeStmt', 'ConditionalOperator'}))
+                                piecewise.append((h, dn['id'], d_['name'], straight))
+                                continue
                             bare = (h, dn['id'], d_['name'])
             # objects with static storage: constant-initialised (a braced table) is defined; static storage without initialiser is zero-initialised
             for s_ in prog.statics.values():
                 t_ = s_.get('type', '')
                 if (q and re.search(r'(?<![\w:])%s(?!\w)' % re.escape(q), t_)) or (not q and tag in t_):
                     uses += 1
+            if bare is None and any(not st_ for _h, _n, _nm, st_ in piecewise):
+                h_, n_, nm_, _s = [x for x in piecewise if not x[3]][0]
+                res.undecided('member-init', q or 'unnamed aggregate', h_.loc(n_), 'object `%s` is declared without initialiser and its members are assigned one by one in a function with branches: whether every member is '
+                              'assigned before it is read is not decided [shape not read by the rule]' % nm_, function=h_.sig, expr=(q or 'aggregate') + ':piecewise')
+                continue
             if bare is None and (uses or not q):
                 res.ok('member-init', q or 'unnamed aggregate', '%s:%d' % (c['file'].replace(prog.repo + '/', ''), c['line']), 'aggregate without constructors: every object (%d) is created from a braced initialiser list' % uses,
                        function='', expr=(q or 'aggregate') + ':aggregate', nontrivial=False)
@@ -180,6 +198,26 @@ def guard_constant(f, expr, use):
                 a2 = uncast(a)
                 if a2 == want and re.match(r'^-?\d+$', b) and use in f.descendants(n['then']):
                     out = int(b)
+        elif c['k'] == 'BinaryOperator' and c['op'] == '||' and use in f.descendants(n['then']):
+            # A == C1 || A == C2 ...: the largest of the constants bounds A on the true branch
+            parts = []
+            st_ = [c]
+            okd = True
+            while st_:
+                x = st_.pop()
+                if x['k'] == 'BinaryOperator' and x['op'] == '||':
+                    st_.extend(f.nodes[f.strip(k_, 'all')] for k_ in x['ch'])
+                elif x['k'] == 'BinaryOperator' and x['op'] == '==':
+                    l, r = R.render(x['ch'][0]), R.render(x['ch'][1])
+                    hit = [int(b) for a, b in ((l, r), (r, l)) if uncast(a) == want and re.match(r'^-?\d+$', b)]
+                    if hit:
+                        parts.append(hit[0])
+                    else:
+                        okd = False
+                else:
+                    okd = False
+            if okd and parts and all(p_ >= 0 for p_ in parts):
+                out = max(parts)
     # inside `case K:` groups of a switch on the same expression: the largest label of the group
     for sw in f.all_nodes({'SwitchStmt'}):
         if use not in f.descendants(sw['id']):
@@ -297,6 +335,10 @@ def _classify_write(prog, f, n, R, toupper_ok, ptr=None):
                         return 'violation', 'width', '%d bytes are written from an object of %d bytes (call at %s)' % (worst[0], size, worst[1])
                     c = worst[0]
                     gc = c
+                if gc is None and any(want_ in Renderer(f).render(i_['cond']) for i_ in f.all_nodes({'IfStmt', 'SwitchStmt'}) if n['id'] in f.descendants(i_['id'])
+                                      for want_ in [re.sub(r'^(\((?:unsigned |signed )?\w[\w ]*\))+', '', Renderer(f).render(cnt))] if 'cond' in i_):
+                    # the count is tested by an enclosing condition the rule does not read as `count == constant`
+                    return 'undecided', 'width', 'byte count %s is tested by an enclosing condition the rule cannot turn into a bound [shape not read by the rule]' % P.show(w)
                 if gc is None:
                     return 'violation', 'width', 'byte count %s is not bounded by sizeof(object) = %d' % (P.show(w), size)
                 c = gc
@@ -563,7 +605,8 @@ def run(prog, tier):
             elif root.startswith('param:'):
                 k = int(root.split(':')[1])
                 pt = f.params[k]['type'] if k < len(f.params) else '?'
-                if not is_streamish(pt) and f.name.startswith('write'):
+                # a section writer (it is handed the stream): its other reference parameters are the caller's, and writing them changes the object being saved
+                if not is_streamish(pt) and any(is_streamish(p_['type']) for p_ in f.params):
                     bad.append(e)
         if bad and not f.rec.get('const') and f.kind == 'method':
             # a non-const method reachable from save: only acceptable on locals/temporaries; judged at its call sites
